@@ -30,7 +30,9 @@ func vSame(a, b any) bool                       { panic("intrinsic") }
 func vSig(name string, v int)                   { panic("intrinsic") }
 func vYield()                                   { panic("intrinsic") }
 func vMon(f func())                             { panic("intrinsic") }
+func vMonC(class int, f func())                  { panic("intrinsic") }
 func vBlockUntil(f func() bool)                 { panic("intrinsic") }
+func vBlockUntilAny(f func() bool)              { panic("intrinsic") }
 func vQuiesce() int                             { panic("intrinsic") }
 func vThreadID() int                            { panic("intrinsic") }
 func vThreadIdle(t int) bool                    { panic("intrinsic") }
@@ -40,4 +42,7 @@ func vGuardedBy(mu *sync.RWMutex, data *map[string]any) { panic("intrinsic") }
 func vTimers() int                              { panic("intrinsic") }
 func vSections(mu *sync.RWMutex) int            { panic("intrinsic") }
 func vPick(idx int, opts ...any) any             { panic("intrinsic") }
+func vRaceChecked(p any)                        { panic("intrinsic") }
+func vThreadsCreated() int                      { panic("intrinsic") }
+func vLockFree(mu *sync.RWMutex) bool            { panic("intrinsic") }
 func vFail(msg string)                          { panic("intrinsic") }
